@@ -1330,8 +1330,12 @@ impl DhtCoreEngine {
         self.close_group_validator.clone()
     }
 
-    /// Extract the IP from a `NodeInfo.address` ("ip:port" or just "ip").
+    /// Extract the IP from a `NodeInfo.address`: "ip:port", just "ip", or the
+    /// library's own rendering of a `NetworkAddress`, "ip:port (four-words)".
     fn parse_node_ip(address: &str) -> Option<IpAddr> {
+        let address = address
+            .split_once(" (")
+            .map_or(address, |(plain, _words)| plain);
         if let Ok(socket) = address.parse::<SocketAddr>() {
             Some(socket.ip())
         } else {
